@@ -152,7 +152,7 @@ pub fn record(args: &[String]) {
             }
         }
         log.borrow_mut().clear();
-        let (res, halted) = run_timed(&script, base.clone(), 5000);
+        let (res, halted) = run_timed(&script, base.clone(), 20000);
         let l = log.borrow();
         if halted || !matches!(res, Ok(Ok(_))) || l.len() != ops.len() + 1 {
             s.mismatch(json!({"history": h, "script": script, "why": format!("run did not complete: halted={} snaps={} of {}", halted, l.len(), ops.len() + 1)}));
